@@ -121,6 +121,9 @@ def run (args : List String) : Option String :=
   match args with
   | ["acc", name] => some (fmtBool (accessorKnown name))
   | ["idxkind", name] => some (indexKind name)
+  | ["fitkind", n] => do
+    let n ← parseNat? n
+    pure (fmtRes (fun (k : Nat) => toString k) (fitKind n))
   | ["cropGB", ny, nx, aff, crs, ny2, nx2, aff2, crs2] => do
     let g ← parseGB? ny nx aff crs
     let w ← parseGB? ny2 nx2 aff2 crs2
